@@ -11,7 +11,7 @@ RULES = {
     "R-VINT-RANGE": codec.r_vint_range,
     "R-DEC-RANGE": codec.r_dec_range,
     "R-DEST-OWNER": writer.r_dest_owner,
-    "R-FLUSH-GUARD": writer.r_flush_guard,
+    "R-FLUSH-GUARD": writer_abs.r_flush_sem,
     "R-FLUSH-API": writer.r_flush_api,
     "R-SHARED-MATCHER": writer.r_shared_matcher,
     "R-WRITER-VALIDATES": writer_abs.r_writer_validates,
